@@ -198,6 +198,13 @@ def confined_edit(a, S, gen):
     if "metadata" in S and r.random() < 0.6:
         b["metadata"]["edited"] = gen.value()
         did.append("nb-metadata")
+    with_id = [i for i, c in enumerate(b["cells"]) if "id" in c]
+    if "id" in S and len(with_id) >= 2 and r.random() < 0.15:
+        # the ids of two cells SWAPPED (a tool that re-keys cells): still only an id difference
+        i, j = r.sample(with_id, 2)
+        if b["cells"][i]["id"] == a["cells"][i]["id"] and b["cells"][j]["id"] == a["cells"][j]["id"]:
+            b["cells"][i]["id"], b["cells"][j]["id"] = b["cells"][j]["id"], b["cells"][i]["id"]
+            did.append("ids-swapped")
     return b, did
 
 
@@ -240,7 +247,8 @@ def judge(col, a, b, S, route, tmp, cls, confined, base_diff):
             lp = leaf_paths(pd)
             realign = "outputs" in S and "outputs" in confined and all(
                 p == "/cells/*" or p.startswith("/cells/*/source") or p.startswith("/cells/*/") for p, op in lp) and any(p == "/cells/*" for p, op in lp)
-            col.violation("cell-alignment-depends-on-ignored-outputs" if realign else "only-ignored-differences-nonempty-diff", "S=%s route=%s edits=%s diff=%s" % (
+            swapped = "id" in S and "ids-swapped" in confined
+            col.violation("cell-alignment-depends-on-ignored-ids" if swapped else ("cell-alignment-depends-on-ignored-outputs" if realign else "only-ignored-differences-nonempty-diff"), "S=%s route=%s edits=%s diff=%s" % (
                 sorted(S), route, confined, json.dumps(pd)[:200]), dict(case, diff=pd), "only-ignored=>empty")
     # reset
     dn.reset_notebook_differ()
